@@ -260,9 +260,23 @@ def run(ctx, res):
     for _ in range(100):  # sub-second: lexical form only
         v = dt.timedelta(seconds=rng.randint(-10000, 10000), microseconds=rng.randint(1, 999999))
         d.call("Duration.encode", F["Duration.encode"], v, ("enc", "subsecond"))
+    # strings of the xsd:duration lexical space the encoder itself never writes: absent components,
+    # leading zeros, fractions of 1..12 digits (a timedelta keeps the first six)
+    for _ in range(400 if quick else 12000):
+        num = lambda hi: rng.choice(["0", "00", "1", "07", "59", "60", "99", str(rng.randint(0, hi))])
+        day = rng.choice(["", "", num(400) + "D"])
+        tparts = [rng.choice(["", num(99) + "H"]), rng.choice(["", num(99) + "M"])]
+        sec = rng.choice(["", num(99), num(99)])
+        if sec:
+            nd = rng.choice([0, 0, 1, 2, 3, 6, 6, 7, 8, 9, 12])
+            frac = "".join(rng.choice("0123456789") for _ in range(nd))
+            sec = sec + ("." + frac if frac else "") + "S"
+        tail = "".join(tparts) + sec
+        sd = rng.choice(["", "-"]) + "P" + day + ("T" + tail if tail else "")
+        d.call("Duration.decode", F["Duration.decode"], sd, ("dec-gen", "in" if lex.in_duration_space(sd) else "out", "frac%d" % min(len(sd.partition(".")[2].rstrip("S")), 7) if "." in sd else "nofrac"))
     # hand-written decoder inputs: in the space with another meaning, and just outside it
     if ctx.shard == 0:
-        for s in ["PT1.5S", "P-1D", "P1M", "PT1S2", "PT-5S", "P1.5D", "P1Y", "PT", "P", "", "-P", "P1DT", "PT1H1S", "P1DT1M", "PT0S", "-PT0S", "P0D",
+        for s in ["PT1.1234567S", "PT00H00M01.500000000S", "PT0.0000001S", "-PT1.9999999S", "PT1.5S", "P-1D", "P1M", "PT1S2", "PT-5S", "P1.5D", "P1Y", "PT", "P", "", "-P", "P1DT", "PT1H1S", "P1DT1M", "PT0S", "-PT0S", "P0D",
                   "PT1M30S", "PT90S", "PT36H", "P2DT12H", "PT0.5S", "PT1H ", " PT1H", "pt1h", "PT1HH", "PTS", "PT1", "1H", "PT1H2H", "P1D2D", "PT1S1M", "P1W", "PT1.S"]:
             d.call("Duration.decode", F["Duration.decode"], s, ("dec-hand", "in" if lex.in_duration_space(s) else "out", "x"))
         for s in ["2024-01-31", "2024-1-31", "20240131", "2024-01-31T10:00:00", "2024-01-31 10:00:00", "2024-13-01", "2024-02-30", "0001-01-01", "10000-01-01", "24-01-31",
